@@ -1378,7 +1378,7 @@ func (p *Prog) witnessSearch1(o checkOpts, ob *Obligation) (*Witness, string) {
 		}
 		lists = append(lists, l)
 	}
-	enum := productByWeight(lists, 6000)
+	enum := productByWeight(lists, 3000)
 	for _, t := range enum {
 		tuples = append(tuples, t)
 	}
@@ -1390,7 +1390,7 @@ func (p *Prog) witnessSearch1(o checkOpts, ob *Obligation) (*Witness, string) {
 	type job struct {
 		idx int
 	}
-	deadline := t0.Add(45 * time.Second)
+	deadline := t0.Add(25 * time.Second)
 	checked := 0
 	var found *Witness
 	var mu sync.Mutex
